@@ -430,12 +430,13 @@ func genPipeline(t *rapid.T, proto string, envs map[string]*wire.GenEnv, maxPhas
 			victim.tpl = env.GenTemplate(t, victim.tpl.ID)
 			flood = append(flood, announce(victim), announce(victim))
 			c.Subset = append(c.Subset, len(c.Phases))
-			c.Phases = append(c.Phases, flood)
+			// the other protocols' pipelines go on next to the overflowing one: their queues are far from full
+			c.Phases = append(c.Phases, withCross(flood))
 			var after []plDatagram
 			for i := 0; i < 12; i++ {
 				after = append(after, dataFor(victim), dataFor(filler))
 			}
-			c.Phases = append(c.Phases, after)
+			c.Phases = append(c.Phases, withCross(after))
 		}
 	case "nf5":
 		for p := 0; p < nphases; p++ {
@@ -745,7 +746,8 @@ func runPipeline(prop string, c *plCase) (v verdict, sig string, err error) {
 			return "extra", fmt.Errorf("phase %d, %s: %d published payloads correspond to no datagram sent, e.g. %s", pi, what, len(extra), clip(extra[0]))
 		case len(dup) > 0:
 			return "duplicate", fmt.Errorf("phase %d, %s: %d payloads published more than once, e.g. %s", pi, what, len(dup), clip(dup[0]))
-		case len(missing) > 0 && !subset[pi]:
+		case len(missing) > 0 && !(subset[pi] && nsent >= 1000):
+			// (a queue of 1000 slots can only overflow in a pipeline that was sent 1000 datagrams or more in the phase)
 			return "missing", fmt.Errorf("phase %d, %s (%d datagrams, %d workers): %d datagrams that yield records were not published, e.g. %s", pi, what, nsent, c.Workers, len(missing), clip(missing[0]))
 		}
 		return "", nil
